@@ -19,6 +19,8 @@ package codec
 import (
 	"io"
 	"sort"
+
+	cerrors "github.com/icon-project/goloop/common/errors"
 )
 
 type TypedDict struct {
@@ -70,6 +72,9 @@ func (m *TypedDict) RLPReadSelf(r Reader) error {
 		if err := d2.Decode(&key); err != nil {
 			if err == io.EOF {
 				return d2.Close()
+			}
+			if err == ErrNilValue {
+				return cerrors.Wrap(ErrInvalidFormat, "InvalidFormat(NilKey)")
 			}
 			return err
 		}
